@@ -185,10 +185,17 @@ func runSched(inp schedInput) (out map[string]any) {
 				row[e.T] = "blocked"
 				if !e.MayBlock {
 					trace = append(trace, row)
+					// why it is obliged to return: (concurrent removals: values and "eof" both allowed) closed or
+					// cancelled; otherwise an unseen item, a cancelled context, a closed container
 					key := what + "/stuck-after-cancel"
+					tainted := len(e.Vals) > 0 && in("eof", e.Errs)
 					switch {
+					case tainted && !in("ctx", e.Errs):
+						key = what + "/stuck-after-close"
+					case tainted:
 					case len(e.Vals) > 0:
 						key = what + "/stuck-with-unseen-item"
+					case in("ctx", e.Errs):
 					case in("eof", e.Errs) || in("closed", e.Errs):
 						key = what + "/stuck-after-close"
 					case in("ok", e.Errs):
